@@ -452,8 +452,8 @@ class ScenarioLoader:
                 (f"{fw_err_prefix} must be a dictionary, with host "
                  "addresses as keys and a list of denied services as values. "
                  f"{firewall} is invalid.")
-            for addr, srv_list in firewall.items():
-                addr = self._validate_host_address(addr, err_prefix)
+            for src_addr, srv_list in firewall.items():
+                self._validate_host_address(src_addr, err_prefix)
                 assert self._is_valid_firewall_setting(srv_list), \
                     (f"{fw_err_prefix} setting must be a list, contain only "
                      f"valid services and contain no duplicates: {srv_list}"
@@ -468,8 +468,10 @@ class ScenarioLoader:
                 (f"{v_err_prefix} must be an integer or float value. "
                  f"{host_value} is invalid")
 
-            if addr in self.sensitive_hosts:
-                sh_value = self.sensitive_hosts[addr]
+            # sensitive hosts are keyed by (subnet_id, host_id) tuples
+            host_addr = eval(addr)
+            if host_addr in self.sensitive_hosts:
+                sh_value = self.sensitive_hosts[host_addr]
                 assert math.isclose(host_value, sh_value), \
                     (f"{v_err_prefix} for a sensitive host must either match "
                      f"the value specified in the {u.SENSITIVE_HOSTS} section "
